@@ -331,16 +331,17 @@ FORMAT = 'https://www.debian.org/doc/packaging-manuals/copyright-format/1.0/'
 # workload sizes (TOTAL cases over all shards)
 
 SIZES = {
-    'para': (64000, 2600000),      # x ~6 names
-    'hist': (12000, 480000),       # x ~8 ops
-    'doc': (9000, 360000),         # x ~5 names x ~3 paragraphs
+    'para': (60000, 2600000),      # x ~6 names
+    'hist': (11400, 480000),       # x ~8 ops
+    'doc': (8500, 360000),         # x ~5 names x ~3 paragraphs
     'raw': (10000, 400000),        # x ~5 names
     'wsdoc': (3600, 150000),       # x ~5 names x ~3 paragraphs; paragraphs separated by whitespace-only lines
-    'build': (5000, 150000),       # x ~5 query steps x ~6 names x ~3 paragraphs, + one dump-then-parse per query step
+    'build': (4600, 150000),       # x ~5 query steps x ~6 names x ~3 paragraphs, + one dump-then-parse per query step
     'nsdoc': (1400, 42000),        # whitespace-only separator runs of 2..4 lines, Copyright(..., strict=False)
     'long': (900, 28000),          # built paragraphs with LONG pattern lists: x ~20 names x ~3 paragraphs x 2..3 stages
     'lead': (700, 22000),          # built paragraphs whose patterns START with '.' or '/': x ~14 names x ~3 paragraphs x 2..3 stages
     'cmt': (1600, 60000),          # BYTES documents with '#' comment lines + the same document as str: x ~6 names x ~3 paragraphs x 2
+    'incr': (700, 24000),         # documents built incrementally with SHARED license short names: x ~6 adds x (listing + ~6 names + 2 re-parses)
 }
 
 LIT = ['a', 'a', 'a', 'b', 'b', 'c', 'A', '/', '/', '.']
@@ -1313,6 +1314,148 @@ def gen_build_case(r, wide):
 
 
 # ---------------------------------------------------------------------------
+# documents built INCREMENTALLY through the Copyright API with SHARED license short names (kind 'incr')
+
+# license short names (synopses) as they occur in real debian/copyright files; a case draws 2..3 of them, so that stand-alone
+# License paragraphs and the License field of Files paragraphs keep naming the SAME license
+INCR_SYN = ['GPL-2+', 'GPL-2+', 'GPL-2', 'GPL-3+', 'Expat', 'Expat', 'MIT', 'BSD-3-clause', 'BSD-2-clause', 'LGPL-2.1+',
+            'Apache-2.0', 'public-domain', 'GPL-2+ or Expat', 'GPL-2+ with OpenSSL exception', 'Artistic or GPL-1+', 'CC0-1.0',
+            'ISC', 'Zlib', 'gpl-2+', 'L']
+INCR_OWNERS = ['2020 Jane Doe <jane@example.org>', '2001-2019 The Foo Authors', '1999 Nobody']
+INCR_START_MODES = ['parse', 'parse', 'parse', 'parse-file', 'parse-file', 'parse-noeol', 'parse-bytes', 'parse-bytesio', 'parse-disk']
+INCR_REPARSE_MODES = ['parse', 'parse', 'parse-file', 'parse-file', 'parse-noeol', 'parse-bytesio']
+
+
+def gen_incr_case(r, wide):
+    """An empty Copyright() or a parsed document, then 3..8 (thorough 3..10) add_files_paragraph / add_license_paragraph calls
+    in mixed orders.  Every paragraph carries its unique id in a Comment field; license short names are drawn from a
+    sub-pool of 2..3 names per case and by RELATION to the document as it is at that point: the short name of an earlier
+    Files paragraph / of an earlier stand-alone License paragraph (= the same short name added twice) / of both / fresh."""
+    pool = []
+    while len(pool) < r.choice((2, 2, 3)):
+        s = r.choice(INCR_SYN)
+        if s not in pool:
+            pool.append(s)
+    illegal_ok = r.random() < 0.03
+    realistic = r.random() < 0.15
+    st = {'n': 0, 'tx': 0, 'fresh': 0, 'F': [], 'L': [], 'lists': [], 'wit': []}       # F / L: entries in the document so far
+
+    def fresh_syn():
+        unused = [s for s in pool if s not in [e['syn'] for e in st['F']] and s not in [e['L'] for e in st['L']]]
+        if unused and r.random() < 0.7:
+            return r.choice(unused)
+        st['fresh'] += 1
+        return r.choice(('Custom-%d', 'LicenseRef-%d', 'other-%d+')) % st['fresh']
+
+    def pick_syn(kind, force=None):
+        fs = [e['syn'] for e in st['F']]
+        ls = [e['L'] for e in st['L']]
+        avail = {'fresh': 2}
+        if [s for s in fs if s not in ls]:
+            avail['files'] = 3 if kind == 'L' else 2
+        if [s for s in ls if s not in fs]:
+            avail['lic'] = 3
+        if [s for s in fs if s in ls]:
+            avail['both'] = 2
+        if force in avail:
+            rel = force
+        else:
+            rel = r.choices(sorted(avail), [avail[k] for k in sorted(avail)])[0]
+        if rel == 'fresh':
+            return fresh_syn()
+        if rel == 'files':
+            return r.choice([s for s in fs if s not in ls])
+        if rel == 'lic':
+            return r.choice([s for s in ls if s not in fs])
+        return r.choice([s for s in fs if s in ls])
+
+    def new_f(force=None, parsed=False):
+        legal = [gl for gl in st['lists'] if gl.legal]
+        if legal and r.random() < 0.5:
+            pats, w = overlapping_list(r, r.choice(legal), wide)
+            st['wit'].append(w)
+        elif not st['lists'] and r.random() < 0.3:
+            pats = ['*']
+        elif realistic:
+            pats = r.sample(REAL_POOL, r.choice((1, 2, 3, 4)))
+        else:
+            pats = gen_list(r, wide, illegal_ok=illegal_ok)
+        st['n'] += 1
+        ent = {'F': list(pats), 'syn': pick_syn('F', force), 'id': 'id-%d' % st['n'],
+               'own': r.randrange(len(INCR_OWNERS)) if r.random() < 0.6 else 'u'}
+        same = [e for e in st['F'] if e['syn'] == ent['syn']]
+        if same and r.random() < 0.5:
+            ent['own'] = r.choice(same)['own']          # same copyright holder AND same license as an earlier Files paragraph
+        if r.random() < 0.3:
+            ent['lt'] = 1                               # the license text stands in the Files paragraph itself
+        if parsed:
+            ent['sep'] = r.choice((0, 0, 1, 2))
+            ent['fo'] = r.choice((0, 0, 1))
+        st['F'].append(ent)
+        st['lists'].append(G.GlobList(pats))
+        return ent
+
+    def new_l(force=None):
+        st['n'] += 1
+        syn = pick_syn('L', force)
+        same = [e for e in st['L'] if e['L'] == syn]
+        if same and r.random() < 0.4:
+            tx = r.choice(same)['tx']                   # the SAME license (short name and text) once more
+        else:
+            st['tx'] += 1
+            tx = st['tx']
+        ent = {'L': syn, 'tx': tx, 'id': 'id-%d' % st['n']}
+        st['L'].append(ent)
+        return ent
+
+    shape = r.choice(('license-first', 'license-first', 'files-then-license', 'files-then-license', 'random', 'random', 'random'))
+    start = {'mode': 'empty', 'paras': []}
+    if r.random() < 0.55:
+        paras = []
+        if shape == 'license-first':
+            for _ in range(r.choice((0, 0, 1, 2))):
+                paras.append(new_l())
+        else:
+            for _ in range(r.choice((1, 2, 3, 4))):
+                paras.append(new_f(parsed=True) if r.random() < 0.6 else new_l())
+        start = {'mode': r.choice(INCR_START_MODES), 'paras': paras}
+        if r.random() < 0.25:
+            start['strict'] = False
+    ops = []
+    if shape == 'license-first':
+        # License paragraphs are added BEFORE any Files paragraph exists (one short name twice), then Files paragraphs under
+        # those short names
+        for k in range(r.choice((1, 2, 2, 3))):
+            ops.append(new_l('lic' if k and r.random() < 0.6 else None))
+        ops.append(new_f('lic'))
+        if r.random() < 0.6:
+            ops.append(new_l(r.choice(('both', 'lic'))))
+        if r.random() < 0.6:
+            ops.append(new_f(r.choice(('both', 'lic', 'files'))))
+    elif shape == 'files-then-license':
+        # Files paragraph, then a stand-alone License paragraph under ITS short name, then a later Files paragraph under it
+        # too, then the same License short name once more
+        ops.append(new_f())
+        ops.append(new_l('files'))
+        ops.append(new_f('both'))
+        if r.random() < 0.7:
+            ops.append(new_l('both'))
+        if r.random() < 0.5:
+            ops.append(new_f('both'))
+    for _ in range(r.choice((1, 2, 3, 4)) if not wide else r.choice((1, 2, 3, 4, 5, 6))):
+        ops.append(new_f() if r.random() < 0.5 else new_l())
+    names = gen_names(r, st['lists'], 5) if st['lists'] else gen_names(r, [G.GlobList(['*'])], 3)
+    for w in st['wit'][-2:]:
+        if w not in names:
+            names.append(w)
+    case = {'kind': 'incr', 'start': start, 'ops': ops, 'names': names, 'dump': r.choice(('return', 'file')),
+            'reparse': [r.choice(INCR_REPARSE_MODES), r.choice(INCR_REPARSE_MODES)]}
+    if r.random() < 0.2:
+        case['hl'] = r.choice(pool)                     # the header names one of the licenses too
+    return case
+
+
+# ---------------------------------------------------------------------------
 # cases
 
 def _enum_specs(tier):
@@ -1500,6 +1643,22 @@ def cases(ctx):
     r = ctx.rng('build')
     for i in range(ctx.size(*SIZES['build'])):
         yield gen_build_case(r, wide)
+    # -- documents built INCREMENTALLY through the Copyright API: stand-alone License paragraphs under the SAME short name as
+    #    the license of earlier / later Files paragraphs, the same short name twice, License paragraphs before any Files paragraph
+    if ctx.shard == 0:
+        for start in ({'mode': 'empty', 'paras': []},
+                      {'mode': 'parse', 'paras': [{'F': ['*'], 'syn': 'GPL-2+', 'id': 'id-p1', 'own': 0, 'sep': 0, 'fo': 0},
+                                                  {'L': 'GPL-2+', 'tx': 9, 'id': 'id-p2'}]}):
+            yield {'kind': 'incr', 'start': start, 'dump': 'return', 'reparse': ['parse', 'parse-file'], 'hl': 'GPL-2+',
+                   'ops': [{'L': 'GPL-2+', 'tx': 1, 'id': 'id-1'}, {'L': 'Expat', 'tx': 2, 'id': 'id-2'},
+                           {'L': 'GPL-2+', 'tx': 1, 'id': 'id-3'}, {'F': ['debian/*'], 'syn': 'GPL-2+', 'id': 'id-4', 'own': 0},
+                           {'F': ['debian/rules', 'src/*'], 'syn': 'Expat', 'id': 'id-5', 'own': 0, 'lt': 1},
+                           {'L': 'Expat', 'tx': 3, 'id': 'id-6'}, {'F': ['src/*.c'], 'syn': 'GPL-2+', 'id': 'id-7', 'own': 0},
+                           {'L': 'GPL-2+', 'tx': 4, 'id': 'id-8'}, {'F': ['*.c'], 'syn': 'GPL-2+', 'id': 'id-9', 'own': 'u'}],
+                   'names': ['debian/rules', 'debian/x', 'src/a.c', 'src/a', 'a.c', 'README', 'debian/rules.in']}
+    r = ctx.rng('incr')
+    for i in range(ctx.size(*SIZES['incr'])):
+        yield gen_incr_case(r, wide)
     # -- raw pattern lists (whitespace / newlines) through globs_to_re
     r = ctx.rng('raw')
     for i in range(ctx.size(*SIZES['raw'])):
@@ -2120,6 +2279,10 @@ def _index_of(fps, obj):
     try:
         tag = obj.copyright
         hits = [k for k, p in enumerate(fps) if p.copyright == tag]
+        if len(hits) > 1:
+            # kind 'incr': several paragraphs may name the same copyright holder; the unique id stands in Comment
+            cid = obj.comment
+            hits = [k for k in hits if fps[k].comment == cid]
     except Exception:
         return _MISS
     return hits[0] if len(hits) == 1 else _MISS
@@ -2758,6 +2921,419 @@ def run_build(ctx, case):
 
 
 # ---------------------------------------------------------------------------
+# documents built INCREMENTALLY with shared license short names (kind 'incr')
+
+def incr_owner(p):
+    return INCR_OWNERS[p['own']] if isinstance(p.get('own'), int) else 'holder of %s' % p['id']
+
+
+def incr_text(p):
+    """(short name, text) of the License field of a paragraph entry."""
+    if 'F' in p:
+        return p['syn'], ('Inline text of %s.' % p['syn'] if p.get('lt') else '')
+    return p['L'], 'Text %d of the license.\nSecond line of it.' % p['tx']
+
+
+def incr_entry(p, unique=None):
+    """What a listing must show for the paragraph entry p: ('F', id, files tuple, short name, license text, copyright) /
+    ('L', id, short name, license text).  unique: the control document (every short name made unique)."""
+    syn, text = incr_text(p)
+    if unique is not None:
+        syn = '%s-u%d' % (syn, unique)
+    if 'F' in p:
+        return ('F', p['id'], tuple(p['F']), syn, text, incr_owner(p))
+    return ('L', p['id'], syn, text)
+
+
+def incr_para_lines(p, unique=None):
+    syn, text = incr_text(p)
+    if unique is not None:
+        syn = '%s-u%d' % (syn, unique)
+    lic = ['License: %s' % syn] + [' ' + l for l in text.split('\n') if text]
+    if 'F' not in p:
+        return lic + ['Comment: %s' % p['id']]
+    pats, sep = p['F'], p.get('sep', 0)
+    if sep == 0:
+        f = ['Files: %s' % ' '.join(pats)]
+    elif sep == 1:
+        f = ['Files: %s' % pats[0]] + [' %s' % x for x in pats[1:]]
+    else:
+        f = ['Files:'] + [' %s' % x for x in pats]
+    rest = ['Copyright: %s' % incr_owner(p)] + lic + ['Comment: %s' % p['id']]
+    return f + rest if not p.get('fo') else rest + f
+
+
+def incr_doc_lines(paras, hl=None, unique=False):
+    out = ['Format: %s' % FORMAT, 'Upstream-Name: x'] + (['License: %s' % hl] if hl else [])
+    for i, p in enumerate(paras):
+        out.append('')
+        out.extend(incr_para_lines(p, i if unique else None))
+    return out
+
+
+def incr_make(cp, p):
+    """The paragraph object for entry p, built through the public constructors; its unique id goes into Comment."""
+    syn, text = incr_text(p)
+    if 'F' in p:
+        para = cp.FilesParagraph.create(list(p['F']), incr_owner(p), cp.License(syn, text))
+    else:
+        para = cp.LicenseParagraph.create(cp.License(syn, text))
+    para.comment = p['id']
+    return para
+
+
+def incr_view(cp, paragraphs):
+    """One entry per non-header paragraph, in the order given (see incr_entry)."""
+    out = []
+    for p in paragraphs:
+        if isinstance(p, cp.Header):
+            continue
+        try:
+            if isinstance(p, cp.FilesParagraph):
+                lic = p.license
+                out.append(('F', p.comment, tuple(p.files), lic.synopsis if lic else None, lic.text if lic else None, p.copyright))
+            elif isinstance(p, cp.LicenseParagraph):
+                lic = p.license
+                out.append(('L', p.comment, lic.synopsis if lic else None, lic.text if lic else None))
+            else:
+                out.append(('?', type(p).__name__))
+        except Exception as e:
+            out.append(('?', '%s: %s' % (type(e).__name__, e)))
+    return out
+
+
+def _incr_core(e):
+    """The part of an entry this property is about: kind, id and - for a Files paragraph - its files tuple."""
+    return e[:3] if e[0] == 'F' else e[:2]
+
+
+def _incr_listings(cp, c):
+    """(all_paragraphs, all_files_paragraphs, all_license_paragraphs) as entry lists, plus whether the header comes first
+    and only there."""
+    allp = list(c.all_paragraphs())
+    header_ok = bool(allp) and isinstance(allp[0], cp.Header) and not any(isinstance(p, cp.Header) for p in allp[1:])
+    return incr_view(cp, allp), incr_view(cp, c.all_files_paragraphs()), incr_view(cp, c.all_license_paragraphs()), header_ok
+
+
+def _incr_note(ctx, what, detail):
+    ctx.count('incr:note:%s' % what)
+    notes = ctx.extra.setdefault('incr_notes', [])
+    if len(notes) < 3:
+        notes.append(('%s: %s' % (what, detail))[:600])
+
+
+def _incr_shared(paras):
+    """Does the document name one license short name in more than one paragraph?"""
+    syns = [incr_text(p)[0] for p in paras]
+    return len(set(syns)) < len(syns)
+
+
+def run_incr(ctx, case):
+    """Kind 'incr': after the start and after EVERY add the three listings, find_files_paragraph for every name and the
+    dump()-then-parse of the document (default and strict=False) are judged against the document as it must be now."""
+    from debian import copyright as cp
+    start, ops, names = case['start'], case['ops'], case['names']
+    hl = case.get('hl')
+    parsed = start['mode'] != 'empty'
+    ctx.count('incr:histories')
+    ctx.count('incr:start-%s' % ('parsed' if parsed else 'empty'))
+    info = {}            # id -> [entry dict, live object, GlobList | None]
+    state = {'view': [], 'added-before-files': set()}
+
+    def small_at(i):
+        d = dict(case)
+        d['ops'] = ops[:i + 1]
+        return d
+
+    def viols():
+        return sum(ctx.viol_count.values())
+
+    # ---- the start document
+    if not parsed:
+        c = cp.Copyright()
+        if hl:
+            c.header.license = cp.License(hl)
+    else:
+        paras = start['paras']
+        strict = start.get('strict', True)
+        shared = _incr_shared(paras) or (hl is not None and hl in [incr_text(p)[0] for p in paras])
+        want = [incr_entry(p) for p in paras]
+        small0 = small_at(-1)
+        ctx.mon('M.incr.start')
+        if shared:
+            ctx.count('incr:start-parsed-with-shared-short-name')
+        if not strict:
+            ctx.count('incr:start-parsed-with-strict=False')
+
+        def control_ok():
+            """The same document with every short name made unique, through the same source and `strict`."""
+            try:
+                c0 = parse_doc(ctx, incr_doc_lines(paras, None, unique=True), start['mode'], strict)
+                return incr_view(cp, c0.all_paragraphs()) == [incr_entry(p, i) for i, p in enumerate(paras)]
+            except Exception:
+                return False
+
+        try:
+            c = parse_doc(ctx, incr_doc_lines(paras, hl), start['mode'], strict)
+            view = incr_view(cp, c.all_paragraphs())
+        except Exception as e:
+            if shared and control_ok():
+                ctx.violation('document-with-shared-license-short-name-rejected', 'Copyright(%s%s) raised %s: %s; the same document '
+                              'with every license short name made unique parses to what was written.  Document: %r'
+                              % (start['mode'], '' if strict else ', strict=False', type(e).__name__, e, incr_doc_lines(paras, hl)),
+                              small0)
+                return
+            raise
+        if view != want:
+            if [_incr_core(e) for e in view] == [_incr_core(e) for e in want]:
+                _incr_note(ctx, 'parsed-start-license-or-copyright-text-differs', 'wrote %r, got %r' % (want, view))
+            elif shared and control_ok():
+                ctx.violation('paragraphs-of-parsed-document-with-shared-license-short-name-differ-from-what-was-written',
+                              'all_paragraphs() shows %r, written: %r; the same document with every license short name made unique '
+                              'parses to what was written' % (view, want), small0)
+                return
+            else:
+                # harness sanity (not the property): the document must contain what was written
+                ctx.inconclusive.append('incr start document did not parse to what was written: wrote %r, got %r' % (want, view))
+                return
+        objs = [p for p in c.all_paragraphs() if not isinstance(p, cp.Header)]
+        for p, obj in zip(paras, objs):
+            info[p['id']] = [p, obj, G.GlobList(p['F']) if 'F' in p else None]
+        state['view'] = view
+
+    memo = {}
+
+    def listing(small, what):
+        """The three listings agree with each other.  Returns the all_paragraphs() view or None (violation recorded)."""
+        try:
+            view, fview, lview, header_ok = _incr_listings(cp, c)
+        except Exception as e:
+            ctx.violation('paragraph-listing-raises', 'after %s: all_paragraphs() / all_files_paragraphs() / all_license_paragraphs() '
+                          'raised %s: %s' % (what, type(e).__name__, e), small)
+            return None
+        if not header_ok or any(e[0] == '?' for e in view):
+            ctx.violation('all_paragraphs-not-header-then-files-and-license-paragraphs', 'after %s all_paragraphs() does not show '
+                          'the header first and Files / License paragraphs behind it: %r' % (what, view), small)
+            return None
+        if fview != [e for e in view if e[0] == 'F']:
+            ctx.violation('all_files_paragraphs-disagrees-with-all_paragraphs', 'after %s all_files_paragraphs() shows %r, '
+                          'all_paragraphs() %r' % (what, fview, view), small)
+            return None
+        if lview != [e for e in view if e[0] == 'L']:
+            ctx.violation('all_license_paragraphs-disagrees-with-all_paragraphs', 'after %s all_license_paragraphs() shows %r, '
+                          'all_paragraphs() %r' % (what, lview, view), small)
+            return None
+        return view
+
+    def check_step(i, p, rel):
+        """The listings after the add of entry p against the listing before it."""
+        opname = 'add_files_paragraph' if 'F' in p else 'add_license_paragraph'
+        what = '%s(%s, License short name %r: %s)' % (opname, p['id'], incr_text(p)[0], rel)
+        small = small_at(i)
+        ctx.mon('M.incr.step')
+        prev = state['view']
+        view = listing(small, what)
+        if view is None:
+            return False
+        uid = p['id']
+        ids, prev_ids = [e[1] for e in view], [e[1] for e in prev]
+        if any(u not in ids for u in prev_ids):
+            ctx.violation('add-drops-or-replaces-existing-paragraph/%s' % opname, '%s: paragraph(s) %r are gone; before: %r, after: %r'
+                          % (what, [e for e in prev if e[1] not in ids], prev, view), small)
+            return False
+        if ids.count(uid) != 1 or len(view) != len(prev) + 1:
+            ctx.violation('add-does-not-add-exactly-one-paragraph/%s' % opname, '%s: the document had %d paragraphs and now has %d, '
+                          'the new one %d time(s); before: %r, after: %r' % (what, len(prev), len(view), ids.count(uid), prev, view),
+                          small)
+            return False
+        pos = ids.index(uid)
+        rest = view[:pos] + view[pos + 1:]
+        if [e[1] for e in rest] != prev_ids:
+            ctx.violation('add-reorders-existing-paragraphs/%s' % opname, '%s: before: %r, after: %r' % (what, prev_ids, ids), small)
+            return False
+        changed = [(a, b) for a, b in zip(prev + [incr_entry(p)], rest + [view[pos]]) if a != b]
+        if any(_incr_core(a) != _incr_core(b) for a, b in changed):
+            ctx.violation('add-changes-files-of-a-paragraph/%s' % opname, '%s: (before, after) %r'
+                          % (what, [(a, b) for a, b in changed if _incr_core(a) != _incr_core(b)]), small)
+            return False
+        if changed:
+            _incr_note(ctx, 'add-changed-license-or-copyright-text-of-a-paragraph', '%s: %r' % (what, changed))
+        if 'F' in p:
+            fpos = [k for k, e in enumerate(view) if e[0] == 'F' and k != pos]
+            if fpos and fpos[-1] > pos:
+                ctx.violation('files-paragraph-order-differs-from-documented-insertion', '%s: Files paragraphs are in order %r; '
+                              'add_files_paragraph documents "directly after the last FilesParagraph" (all paragraphs: %r)'
+                              % (what, [e[1] for e in view if e[0] == 'F'], ids), small)
+                return False
+            if fpos and fpos[-1] != pos - 1:
+                _incr_note(ctx, 'position-relative-to-license-paragraphs-differs-from-docstring', '%s: %r' % (what, ids))
+            if not fpos and prev:
+                ctx.count('incr:first-files-paragraph-added-to-license-only-document')
+        elif pos != len(view) - 1:
+            _incr_note(ctx, 'license-paragraph-not-added-behind-all-other-paragraphs', '%s: %r' % (what, ids))
+        state['view'] = view
+        return True
+
+    def observe(i, label):
+        """find_files_paragraph for every name on the document as it is now; dump() then parse, default and strict=False."""
+        small = small_at(i)
+        view = state['view']
+        before = viols()
+        fents = [e for e in view if e[0] == 'F']
+        fps = [info[e[1]][1] for e in fents]
+        lists = [info[e[1]][2] for e in fents]
+        lsyn = set(e[2] for e in view if e[0] == 'L')
+        any_illegal = any(not gl.legal for gl in lists)
+        res = doc_queries(ctx, case, c, fps, lists, names, {}, '-incr', small_of=lambda name: small, mon='M.incr.find',
+                          cnt='incr-find', memo=memo)
+        ctx.evaluations += len(names)
+        want_idx = []
+        for name in names:
+            hits = [k for k, gl in enumerate(lists) if gl.matches(name)] if not any_illegal else []
+            want_idx.append(hits[-1] if hits else None)
+            if not lists:
+                ctx.count('incr:find-on-document-without-files-paragraph')
+            if not hits:
+                continue
+            if fents[hits[-1]][3] in lsyn:
+                ctx.count('incr-find:resolves-to-files-paragraph-whose-short-name-a-license-paragraph-carries')
+            if len(hits) >= 2 and len(set(fents[k][3] for k in hits)) == 1:
+                ctx.count('incr-find:last-of-several-matching-files-paragraphs-under-one-short-name')
+            if fents[hits[-1]][1] in state['added-before-files']:
+                ctx.count('incr-find:resolves-to-files-paragraph-added-behind-license-paragraphs-of-a-files-less-document')
+        if viols() != before:
+            return False
+        # ---- dump() then parse: default and strict=False
+        try:
+            if case.get('dump') == 'file':
+                f = io.StringIO()
+                c.dump(f)
+                text = f.getvalue()
+            else:
+                text = c.dump()
+            lines = text.split('\n')
+            if lines and lines[-1] == '':
+                lines.pop()
+        except Exception as e:
+            ctx.violation('dump-of-built-document-raises', '%s: dump() raised %s: %s' % (label, type(e).__name__, e), small)
+            return False
+        strict_ok = False
+        for strict, mode in ((True, case['reparse'][0]), (False, case['reparse'][1])):
+            suffix = '' if strict else NS_SUFFIX
+            ctx.mon('M.incr.reparse')
+            ctx.count('incr:reparse-strict' if strict else 'incr:reparse-strict=False')
+            try:
+                c2 = parse_doc(ctx, lines, mode, strict)
+                view2, fview2, lview2, header_ok2 = _incr_listings(cp, c2)
+            except Exception as e:
+                if strict or strict_ok:
+                    ctx.violation('dump-of-built-document-does-not-reparse' + (suffix if strict_ok else ''), '%s: dump() then '
+                                  'Copyright(%s%s) raised %s: %s; dumped text %r' % (label, mode, '' if strict else ', strict=False',
+                                                                                   type(e).__name__, e, text), small)
+                    return False
+                continue
+            core, core2 = [_incr_core(e) for e in view], [_incr_core(e) for e in view2]
+            bad = None
+            if [x for x in core2 if x[0] == 'F'] != [x for x in core if x[0] == 'F']:
+                bad = 'dumped-document-has-different-files-paragraphs'
+            elif [x for x in core2 if x[0] == 'L'] != [x for x in core if x[0] == 'L'] or len(view2) != len(view) or not header_ok2:
+                bad = 'dumped-document-has-different-license-paragraphs'
+            elif fview2 != [e for e in view2 if e[0] == 'F'] or lview2 != [e for e in view2 if e[0] == 'L']:
+                bad = 'listings-of-reparsed-document-disagree'
+            if bad:
+                if not strict and not strict_ok:
+                    return False          # already reported for the default parse of the same text
+                ctx.violation(bad + (suffix if strict_ok else ''), '%s: dump() then Copyright(%s%s) shows %r (Files: %r, License: %r); '
+                              'the live document has %r; dumped text %r' % (label, mode, '' if strict else ', strict=False', view2,
+                                                                            fview2, lview2, view, text), small)
+                return False
+            if core2 != core:
+                _incr_note(ctx, 'dump-position-relative-to-license-paragraphs-differs', '%r -> %r' % (core, core2))
+            elif view2 != view:
+                _incr_note(ctx, 'reparsed-license-or-copyright-text-differs', '%r -> %r' % (view, view2))
+            fps2 = list(c2.all_files_paragraphs())
+            for name, live_res, widx in zip(names, res, want_idx):
+                try:
+                    r2 = ('value', _index_of(fps2, c2.find_files_paragraph(name)))
+                except cp.MachineReadableFormatError as e:
+                    r2 = ('format-error', str(e))
+                except Exception as e:
+                    r2 = ('other-error', '%s: %s' % (type(e).__name__, e))
+                ctx.mon('M.incr.reparse.find')
+                if any_illegal:
+                    continue          # either outcome is acceptable there (see ASSUMPTIONS); nothing to compare
+                if r2[0] != live_res[0] or (r2[0] == 'value' and (r2[1] != live_res[1] or r2[1] != widx)):
+                    ctx.violation('reparsed-document-resolves-differently' + (suffix if strict_ok else ''),
+                                  '%s: find_files_paragraph(%r): live document -> %r, dump()-then-parse of it (%s%s) -> %r, last '
+                                  'matching Files paragraph is #%r; pattern lists in document order %r'
+                                  % (label, name, _show(live_res), mode, '' if strict else ', strict=False', _show(r2), widx,
+                                     [gl.patterns for gl in lists]), small)
+                    return False
+            if strict:
+                strict_ok = True
+        return viols() == before
+
+    if parsed:
+        if listing(small_at(-1), 'parsing the start document') is None:
+            return
+        if not observe(-1, 'parsed start document'):
+            return
+    for i, p in enumerate(ops):
+        view = state['view']
+        fsyn = [e[3] for e in view if e[0] == 'F']
+        lsyn = [e[2] for e in view if e[0] == 'L']
+        syn = incr_text(p)[0]
+        if syn in fsyn and syn in lsyn:
+            rel = 'short-name-of-earlier-files-and-license-paragraphs'
+        elif syn in fsyn:
+            rel = 'short-name-of-earlier-files-paragraph'
+        elif syn in lsyn:
+            rel = 'short-name-of-earlier-license-paragraph'
+        else:
+            rel = 'short-name-not-in-document'
+        para = incr_make(cp, p)
+        if 'F' in p:
+            # harness sanity (not this class): the paragraph holds the list it was given (judged by the other classes)
+            if tuple(para.files) != tuple(p['F']):
+                ctx.inconclusive.append('incr: FilesParagraph.create(%r).files == %r' % (p['F'], para.files))
+                return
+            ctx.count('incr:add-files/%s' % rel)
+            if not fsyn:
+                ctx.count('incr:add-files/first-files-paragraph' + ('-behind-license-paragraphs' if lsyn else ''))
+                if lsyn:
+                    state['added-before-files'].add(p['id'])
+            if syn in lsyn and [e for e in view if e[0] == 'L' and e[2] == syn and e[1] in state['added-before-files']]:
+                ctx.count('incr:add-files/short-name-of-license-paragraph-added-before-any-files-paragraph')
+            if [e for e in view if e[0] == 'F' and e[3] == syn and e[5] == incr_owner(p)]:
+                ctx.count('incr:add-files/same-copyright-and-short-name-as-earlier-files-paragraph')
+        else:
+            ctx.count('incr:add-license/%s' % rel)
+            if not fsyn:
+                ctx.count('incr:add-license/before-any-files-paragraph')
+                state['added-before-files'].add(p['id'])
+                if syn in lsyn:
+                    ctx.count('incr:add-license/before-any-files-paragraph/short-name-of-earlier-license-paragraph')
+            if syn in lsyn and [e for e in view if e[0] == 'L' and e[2:] == incr_entry(p)[2:]]:
+                ctx.count('incr:add-license/identical-license-as-earlier-license-paragraph')
+        try:
+            if 'F' in p:
+                c.add_files_paragraph(para)
+            else:
+                c.add_license_paragraph(para)
+        except Exception as e:
+            ctx.violation('add-raises/%s' % ('add_files_paragraph' if 'F' in p else 'add_license_paragraph'),
+                          '%s with License short name %r (%s) raised %s: %s; document before: %r'
+                          % (p['id'], syn, rel, type(e).__name__, e, view), small_at(i))
+            return
+        ctx.count('op:incr-add-files' if 'F' in p else 'op:incr-add-license')
+        info[p['id']] = [p, para, G.GlobList(p['F']) if 'F' in p else None]
+        if not check_step(i, p, rel):
+            return
+        if not observe(i, 'after add #%d (%s, %s)' % (i + 1, p['id'], rel)):
+            return
+
+
+# ---------------------------------------------------------------------------
 # LONG pattern lists in paragraphs built through the API
 
 def _viol_mark(ctx):
@@ -3046,6 +3622,8 @@ def run_case(ctx, case):
         run_long(ctx, case)
     elif kind == 'cmt':
         run_cmt(ctx, case)
+    elif kind == 'incr':
+        run_incr(ctx, case)
     else:
         raise ValueError('unknown case kind %r' % kind)
 
